@@ -148,7 +148,9 @@ func c07Apply(x *cpuCtx, spec map[string]c03Spec, t c07Trans) (next byte, sig, w
 		return t.Tracked, "", ""
 	}
 	if pn != nil {
-		return 0, "unexplained:legal-call-refused:" + t.Method, fmt.Sprintf("%s: refused: %v", desc(), pn)
+		// a call the width rules allow was refused: nothing was emitted, so the relation between the emitted
+		// code and the CPU is not touched (whether the guard is the right one is C03's question)
+		return t.Tracked, "", ""
 	}
 	if sig, what, refused := join(); sig != "" {
 		return 0, sig, what
